@@ -59,4 +59,31 @@ funclit 1 in (dht *DHT) FindProvidersAsync(ctx context.Context, key cid.Cid, cou
   ensures [closed] tagged("closed:outCh")
   loop 0 invariant found != nil && $sent >= 0 && (zeroCount || ($sent + count == $count0 && count >= 0))
   ghost at send(outCh): $sent = $sent + 1; assert(!has(found, pi.ID) && $msg == pi)
+
+# C14: if the LAN DHT cannot be built, the WAN DHT that is already running is
+# closed before the error is returned; Close closes both.
+func (cfg *config) apply(opts ...Option) error
+  modifies *
+
+func New(h host.Host, options ...Option) (*DHT, error)
+  props C14
+  constructor
+  ghostvar $wan *dht.IpfsDHT = nil
+  ghostvar $wanClosed bool = false
+  ghostvar $news int = 0
+  modifies *
+  ensures [error-after-wan-started-closes-wan] imp(result1 != nil && $wan != nil, $wanClosed)
+  ensures [success-has-both] imp(result1 == nil, $news == 2 && result0 != nil)
+  ghost at call(New)#0: $wan = ite($ret1 == nil, $ret0, nil); $news = $news + ite($ret1 == nil, 1, 0)
+  ghost at call(New)#1: $news = $news + ite($ret1 == nil, 1, 0)
+  ghost at before call(Close): assert($recv == $wan); $wanClosed = true
+
+func (dht *DHT) Close() error
+  props C14
+  ghostvar $w bool = false
+  ghostvar $l bool = false
+  modifies *
+  ensures [closes-both] $w && $l
+  ghost at before call(Close)#0: assert($recv == dht.WAN); $w = true
+  ghost at before call(Close)#1: assert($recv == dht.LAN); $l = true
 @*/
